@@ -10,6 +10,7 @@
    control flow stays fully symbolic.
 3. int(): objects whose type defines __symx_int__ (harness value types that carry a symbolic integer)
    convert through that hook instead of CPython's int(), which rejects a non-int from __int__.
+4. str.join over a list holding BStr values returns the BStr concatenation.
 2. repr(): CrossHair may skip the call and return an unconstrained symbolic string reconciled
    later (a parallel fork per call).  We always call the object's __repr__.
 """
@@ -68,6 +69,21 @@ def install():
         finally:
             busy[0] = False
 
+    orig_join = core._PATCH_REGISTRATIONS.get(str.join)
+
+    def join_with_bstr(self, itr):
+        # ''.join([...]) over bounded symbolic strings (REPLWrapper.run_command, run()): delegate to BStr.join
+        from symx.bstr import BStr
+        items = list(itr)
+        with NoTracing():
+            has = any(type(x) is BStr for x in items)
+        if has:
+            return BStr.lit(self).join(items)
+        if orig_join is not None:
+            return orig_join(self, items)
+        return self.join(items)
+
+    core._PATCH_REGISTRATIONS[str.join] = join_with_bstr
     core._PATCH_REGISTRATIONS[str.__mod__] = percent_format
     core._PATCH_REGISTRATIONS[repr] = plain_repr
     core._PATCH_REGISTRATIONS[int] = int_with_hook
